@@ -443,6 +443,64 @@ pub fn run(tier: Tier) -> i32 {
         rep.sample(json!({"nodes": ds[i].nodes.iter().map(|n| n.src.clone()).collect::<Vec<_>>(), "unsat": ds[i].unsat, "orders": permutations(ds[i].nodes.len()).len()}));
     }
     rep.absorb("orders", st);
+    // second review round: pairs of documents in which only an id-referenced element is moved; every element carries
+    // a data-k key and the geometry attributes per key must agree (or both documents must fail)
+    let pairs: Vec<(&str, &str, &str)> = vec![
+        ("prev-after-deferred/follower", r##"<svg><rect data-k="z" wh="1"/><rect data-k="a" id="a" xy="#b|h" wh="5"/><rect data-k="e" xy="^|v" wh="3"/><rect data-k="b" id="b" xy="20 20" wh="4"/></svg>"##,
+            r##"<svg><rect data-k="b" id="b" xy="20 20" wh="4"/><rect data-k="z" wh="1"/><rect data-k="a" id="a" xy="#b|h" wh="5"/><rect data-k="e" xy="^|v" wh="3"/></svg>"##),
+        ("prev-after-deferred/self", r##"<svg><rect data-k="z" xy="5 5" wh="10"/><rect data-k="e" xy="^|h" wh="#b"/><rect data-k="b" id="b" xy="50 50" wh="4"/></svg>"##,
+            r##"<svg><rect data-k="b" id="b" xy="50 50" wh="4"/><rect data-k="z" xy="5 5" wh="10"/><rect data-k="e" xy="^|h" wh="#b"/></svg>"##),
+        ("deferred-state/variable", r##"<svg><var k="1"/><rect data-k="a" id="a" xy="#b|h" wh="$k"/><var k="2"/><rect data-k="b" id="b" wh="5"/></svg>"##,
+            r##"<svg><rect data-k="b" id="b" wh="5"/><var k="1"/><rect data-k="a" id="a" xy="#b|h" wh="$k"/><var k="2"/></svg>"##),
+        ("deferred-state/defaults", r##"<svg><rect data-k="a" id="a" xy="#b|h"/><defaults><rect wh="7"/></defaults><rect data-k="b" id="b" wh="5"/></svg>"##,
+            r##"<svg><rect data-k="b" id="b" wh="5"/><rect data-k="a" id="a" xy="#b|h"/><defaults><rect wh="7"/></defaults></svg>"##),
+        ("deferred-side-effects/while-loop", r##"<svg><var n="0"/><loop while="lt($n, 3)"><var n="{{$n+1}}"/><rect data-k="r$n" xy="#b|h $n" wh="2"/></loop><rect data-k="b" id="b" wh="5"/></svg>"##,
+            r##"<svg><rect data-k="b" id="b" wh="5"/><var n="0"/><loop while="lt($n, 3)"><var n="{{$n+1}}"/><rect data-k="r$n" xy="#b|h $n" wh="2"/></loop></svg>"##),
+        ("deferred-side-effects/random", r##"<svg><rect data-k="a" id="a" xy="#b|h" wh="{{randint(1,100)}}"/><rect data-k="b" id="b" wh="5"/></svg>"##,
+            r##"<svg><rect data-k="b" id="b" wh="5"/><rect data-k="a" id="a" xy="#b|h" wh="{{randint(1,100)}}"/></svg>"##),
+        ("computed-id-progress/loop", r##"<svg><g><rect data-k="b" id="b" xy="#a1|h" wh="2"/></g><g><rect data-k="c" xy="#b|v" wh="2"/><loop count="2" loop-var="i"><rect data-k="a$i" id="a$i" xy="{{$i * 5}} 0" wh="2"/></loop></g></svg>"##,
+            r##"<svg><g><rect data-k="c" xy="#b|v" wh="2"/><loop count="2" loop-var="i"><rect data-k="a$i" id="a$i" xy="{{$i * 5}} 0" wh="2"/></loop></g><g><rect data-k="b" id="b" xy="#a1|h" wh="2"/></g></svg>"##),
+        ("computed-id-progress/expression", r##"<svg><g><rect data-k="b" id="b" xy="#a1|h" wh="2"/></g><g><rect data-k="c" xy="#b|v" wh="2"/><rect data-k="a" id="a{{1}}" xy="5 0" wh="2"/></g></svg>"##,
+            r##"<svg><g><rect data-k="c" xy="#b|v" wh="2"/><rect data-k="a" id="a{{1}}" xy="5 0" wh="2"/></g><g><rect data-k="b" id="b" xy="#a1|h" wh="2"/></g></svg>"##),
+        ("literal-id-control", r##"<svg><g><rect data-k="b" id="b" xy="#a1|h" wh="2"/></g><g><rect data-k="c" xy="#b|v" wh="2"/><rect data-k="a" id="a1" xy="5 0" wh="2"/></g></svg>"##,
+            r##"<svg><g><rect data-k="c" xy="#b|v" wh="2"/><rect data-k="a" id="a1" xy="5 0" wh="2"/></g><g><rect data-k="b" id="b" xy="#a1|h" wh="2"/></g></svg>"##),
+    ];
+    let st = run_space(pairs.len(), |i| {
+        let (name, a, b) = pairs[i];
+        let geom = |d: &str| -> Result<BTreeMap<String, Vec<(String, String)>>, String> {
+            match run_str(d, &Cfg::plain()) {
+                Outcome::Ok(o) => {
+                    let tree = xmlref::parse_tree(&o, Mode::Document).map_err(|e| e.to_string())?;
+                    let mut m = BTreeMap::new();
+                    if let Some(r) = xmlref::root(&tree) {
+                        for e in r.descendants() {
+                            if let Some(k) = e.attr("data-k") {
+                                let mut at: Vec<(String, String)> = e.attrs.iter().filter(|(n, _)| matches!(n.as_str(), "x" | "y" | "width" | "height" | "cx" | "cy" | "r")).cloned().collect();
+                                at.sort();
+                                m.entry(k.to_string()).or_insert(at);
+                            }
+                        }
+                    }
+                    Ok(m)
+                }
+                other => Err(other.brief()),
+            }
+        };
+        let (ga, gb) = (geom(a), geom(b));
+        let ok = match (&ga, &gb) {
+            (Ok(x), Ok(y)) => x == y,
+            (Err(_), Err(_)) => true,
+            _ => false,
+        };
+        CaseResult {
+            case_hash: hash64(&a),
+            nontrivial: ok && ga.is_ok(),
+            outcome_hash: hash64(&format!("{ga:?}")),
+            executions: 2,
+            violation: if ok { None } else { Some(Violation { clause: "geometry-depends-on-order".into(), signature: format!("C10/pair/{name}"), case: json!({"input": a, "other_order": b}), detail: format!("reference written later:  {a}\n  -> {ga:?}\nreference written first: {b}\n  -> {gb:?}") }) },
+        }
+    });
+    rep.absorb("order-pairs", st);
     rep.assume("'^' (previous element) is order-dependent by design and not used; documents are side-effect free (no variables)");
     rep.finish()
 }
